@@ -236,6 +236,9 @@ class DaskPCA(PCA):
         X -= self.mean_
 
         if solver in {"full", "tsqr"}:
+            # da.linalg.svd requires an array chunked along the rows only
+            if X.numblocks[1] > 1:
+                X = X.rechunk({1: X.shape[1]})
             U, S, V = da.linalg.svd(X)
         else:
             # randomized
